@@ -34,7 +34,7 @@ func main() {
 	defer cleanupScratch()
 	switch os.Args[1] {
 	case "dump":
-		e, err := LoadEngine("/repo", "/verif/contracts/trusted")
+		e, err := LoadEngine(repoDir(), "/verif/contracts/trusted")
 		if err != nil {
 			fmt.Println(err)
 			os.Exit(2)
@@ -45,7 +45,7 @@ func main() {
 			}
 		}
 	case "list":
-		e, err := LoadEngine("/repo", "/verif/contracts/trusted")
+		e, err := LoadEngine(repoDir(), "/verif/contracts/trusted")
 		if err != nil {
 			fmt.Println(err)
 			os.Exit(2)
@@ -71,6 +71,12 @@ func main() {
 		code := RunCheck(os.Args[2], tier, seed, vd)
 		cleanupScratch()
 		os.Exit(code)
+	case "replay":
+		if len(os.Args) < 3 {
+			fmt.Println("usage: hv replay <file>")
+			os.Exit(2)
+		}
+		os.Exit(ReplayFile(repoDir(), os.Args[2]))
 	case "lock":
 		vd := os.Getenv("VERIF_DIR")
 		if vd == "" {
@@ -88,7 +94,7 @@ func main() {
 		keep := fs.String("keep", "", "directory to keep failing queries")
 		fs.Parse(os.Args[2:])
 		t0 := time.Now()
-		e, err := LoadEngine("/repo", "/verif/contracts/trusted")
+		e, err := LoadEngine(repoDir(), "/verif/contracts/trusted")
 		if err != nil {
 			fmt.Println(err)
 			os.Exit(2)
